@@ -32,6 +32,11 @@ class _Dev(Exception):
     pass
 
 
+class Divergence(Exception):
+    """replaying a recorded prefix reached a choice point with a different menu: the generator's behaviour
+    depends on something other than its parameters and the RNG answers (hidden state between calls)"""
+
+
 # ------------------------------------------------------------------------------------------- set-order seam
 class OrderedChoiceSet:
     """duck-typed set whose iteration order is decided by the explorer (not a subclass of set:
@@ -240,8 +245,7 @@ class GenRun:
         if alt is None:
             return None
         if alt >= len(menu):
-            raise HarnessError(f"schedule names answer {alt} at point {idx} but menu has {len(menu)} entries "
-                               "(divergence while replaying a prefix)")
+            raise Divergence(f"schedule names answer {alt} at point {idx} but menu has {len(menu)} entries")
         return menu[alt]
 
     # ---- set materialisation point
@@ -318,6 +322,8 @@ def execute(params, schedule=None, orders=None, horizon=HORIZON, probe=None, con
         exc = "horizon"
     except _Dev:
         exc = "probe"
+    except Divergence:
+        exc = "divergence"
     except HarnessError:
         raise
     except Exception as e:        # exception escaping the generator: reported by the caller
@@ -360,6 +366,12 @@ def explore_params(params, max_dev=1, on_result=None, dev_cap=None):
     counts["points"] += len(base_run.points)
     if on_result:
         on_result({}, base_run, sc, exc)
+    # determinism of the object under exploration: the default run repeated must consume the same choice points
+    rep_run, rep_sc, rep_exc = execute(params)
+    counts["executions"] += 1
+    counts["default_run_not_repeatable"] = int(rep_run.points != base_run.points or (rep_exc is None) != (exc is None))
+    if counts["default_run_not_repeatable"] and on_result:
+        on_result({"repeat": True}, rep_run, rep_sc, "not_repeatable")
     if max_dev < 1 or exc == "horizon":
         # a default run that already fails to terminate is reported as such; deviating inside a
         # non-terminating run adds nothing but horizon-length executions
